@@ -25,9 +25,10 @@ func init() {
 }
 
 type poolKey struct {
-	v    rt.Value
-	norm string // model key
-	desc string
+	v     rt.Value
+	norm  string // model key
+	desc  string
+	isObj bool
 }
 
 func normNumber(v rt.Value) (string, bool) {
@@ -46,7 +47,7 @@ func normNumber(v rt.Value) (string, bool) {
 
 func buildPool(h *harness.Host, g *core.Tape) ([]poolKey, string) {
 	var p []poolKey
-	add := func(v rt.Value, norm, desc string) { p = append(p, poolKey{v, norm, desc}) }
+	add := func(v rt.Value, norm, desc string) { p = append(p, poolKey{v: v, norm: norm, desc: desc}) }
 	for i := int64(-2); i <= 40; i++ {
 		n, _ := normNumber(rt.IntValue(i))
 		add(rt.IntValue(i), n, fmt.Sprint(i))
@@ -96,6 +97,7 @@ return mk(), mk(), mk2(1), mk2(1), function() end, coroutine.create(mk())`)
 			}
 		}
 		add(o, norm, fmt.Sprintf("%s#%d", o.TypeName(), i))
+		p[len(p)-1].isObj = true
 	}
 	return p, note
 }
@@ -120,6 +122,56 @@ func runTable(ctx *core.RunCtx) {
 		ctx.Fail("C03", "C03.H", "harness", "%s", note)
 		return
 	}
+	// The hash seed is one more source of nondeterminism behind a seam: the Go runtime picks it at
+	// random per process, here the tape picks it per run (hook VerifHashFunc), so that which keys
+	// collide inside a table is part of the replayable case.  Equal keys hash alike by construction
+	// (integral floats as their integer, objects by the first pool object they are raw-equal to).
+	hseed := uint64(g.Choose(1<<30))*0x9e3779b97f4a7c15 + 1
+	mix := func(x uint64) uintptr {
+		x ^= hseed
+		x = (x ^ (x >> 30)) * 0xbf58476d1ce4e5b9
+		x = (x ^ (x >> 27)) * 0x94d049bb133111eb
+		return uintptr(x ^ (x >> 31))
+	}
+	if g.Chance(1, 6) {
+		// a weak hash: many keys share a slot, long chains
+		strong := mix
+		mix = func(x uint64) uintptr { return strong(x) & 3 }
+		ctx.Count("fault.weak hash (long collision chains)", 1)
+	}
+	rt.VerifHashFunc = func(v rt.Value) (uintptr, bool) {
+		if n, ok := v.TryInt(); ok {
+			return mix(uint64(n)), true
+		}
+		if f, ok := v.TryFloat(); ok {
+			if f == math.Trunc(f) && f >= -9.2e18 && f <= 9.2e18 {
+				return mix(uint64(int64(f))), true
+			}
+			return mix(math.Float64bits(f) ^ 0x5555), true
+		}
+		if str, ok := v.TryString(); ok {
+			var hh uint64 = 14695981039346656037
+			for i := 0; i < len(str); i++ {
+				hh = (hh ^ uint64(str[i])) * 1099511628211
+			}
+			return mix(hh ^ uint64(len(str))<<56), true
+		}
+		if b, ok := v.TryBool(); ok {
+			if b {
+				return mix(0xb001), true
+			}
+			return mix(0xb000), true
+		}
+		for i := range pool {
+			if pool[i].isObj {
+				if eq, _ := rt.RawEqual(pool[i].v, v); eq {
+					return mix(0x0b1ec7 + uint64(i)), true
+				}
+			}
+		}
+		return 0, false
+	}
+	defer func() { rt.VerifHashFunc = nil }()
 	var hist []string
 	fail := func(rule, sig, format string, args ...interface{}) {
 		tail := hist
